@@ -77,6 +77,9 @@ package sim
 //@   requires inputs != nil && states != nil && outputs != nil && inputs.rank == 3 && states.rank == 2 && outputs.rank == 3
 //@   requires inputs.dim(0) >= 1 && outputs.dim(0) >= states.dim(0) && outputs.dim(2) >= inputs.dim(2)
 //@   requires inputs.root != states.root && inputs.root != outputs.root && states.root != outputs.root
+// The kernels are proved free of panics (index, division, nil obligations of C10-C16) only for
+// parameters inside their documented ranges; whoever calls Run has to establish that.
+//@   requires [C17.model-parameters-in-range] x.g_paramsInRange == 1
 //@   assigns nothing
 
 //@ func RunSingleModelJSON(r, w, splitOutputs)
